@@ -48,13 +48,18 @@ EXES = {X + "/elf3/vim": (True, LONG_LD), LONG_LD: (False, None), X + "/vim": (T
         X + "/ld.so": (False, None), X + "/elf/nano": (False, X + "/ld2.so"), X + "/ld2.so": (False, None),
         X + "/elf2/ed": (True, X + "/ld3.so"), X + "/ld3.so": (False, None),
         # an editor whose program header table is not where a fresh link puts it (e_phoff != 64)
-        X + "/reloc/vim": (True, X + "/ld5.so"), X + "/ld5.so": (False, None)}
+        X + "/reloc/vim": (True, X + "/ld5.so"), X + "/ld5.so": (False, None),
+        # a configured editor name and a program that is NOT an editor whose name has the same length and the same
+        # 64-bit hash (names are looked up through a hash set)
+        X + "/sqpqjslgoipqkm": (True, None), X + "/gjkjqgoskrkion": (False, None)}
 
 
 def gen_attr_case(rng):
     s = wc.Script()
-    cfg = wc.setup_world(s, wc.base_cfg(deb=5))
+    cfg = wc.setup_world(s, wc.base_cfg(deb=5, editors=["vim", "ed", "sqpqjslgoipqkm"]))
     s.put(X + "/ed", "#!ed")
+    s.put(X + "/sqpqjslgoipqkm", "#!twin editor")
+    s.put(X + "/gjkjqgoskrkion", "#!twin, no editor")
     s.put(X + "/elf/nano", wc.elf_image(X + "/ld2.so"))
     s.put(X + "/ld2.so", "loader2")
     s.put(X + "/elf2/ed", wc.elf_image(X + "/ld3.so"))
